@@ -473,6 +473,15 @@ def check(case):
                 res.label("reproduce:deviation-not-reevaluated")
     else:
         res.label("reproduction-skipped-after-limit-failure")
+    live = gen.energized_buses(net)
+    zombies = [int(b) for b in net.bus.index if b not in live and not math.isnan(float(net.res_bus.at[b, "va_degree"]))]
+    if zombies:
+        # buses whose only connection to a slack leads through an out-of-service bus are optimised as an island without angle
+        # reference (the power flow reports them as not supplied): one root cause, one signature
+        detail = [[sg, d] for sg, d in res.failures][:3]
+        del res.failures[:]
+        res.label("dead-island-kept-alive")
+        res.fail("dead-island-kept-alive", buses=zombies[:6], other_failures=detail)
     if dead_dc and res.failures:
         # one root cause (the auxiliary generator of the dead terminal is missing, its lookup entry is -1): one signature
         detail = [[sg, d] for sg, d in res.failures][:4]
